@@ -136,6 +136,9 @@ pub struct Plan {
     #[serde(default)]
     pub dirseed: u64,
     pub maxevents: i64,
+    /// leave address-space randomisation on (off by default)
+    #[serde(default)]
+    pub aslr: bool,
 }
 
 impl Plan {
@@ -150,6 +153,7 @@ impl Plan {
             shortread: 0,
             dirseed: 0,
             maxevents: 4000,
+            aslr: false,
         }
     }
 
